@@ -10,8 +10,9 @@ resumption is walked feeding it the recorded outputs, and the two event sequence
                    kind of available space per axis, and for SetLayout the `order`)
     bit for bit   (every f32 payload of every input, stored layout and of the container's output).
 
-Both kinds of disagreement are a BROKEN correspondence (the grid arithmetic of the resumption has no other owner: C09's K covers the
-track kernels on its own class of containers, not the item contribution protocol).
+A STRUCTURAL disagreement is a broken correspondence in every check that runs this K (C05, C06, C09).  A payload-only disagreement is a
+broken correspondence in ./check C09 (the owner of the grid arithmetic: there the K runs with payload_is_broken=True) and is counted and
+logged by C05 / C06, whose theorems about the resumption use no arithmetic fact -- an arithmetic change must not make them cry wolf.
 
 Run as a script for development:  python3 -m lib.props._gridalg <seed> <n> [family] [show]"""
 import struct
@@ -163,8 +164,9 @@ def skip_tpl(c, k):
     return k
 
 
-def gridalg_k(rep, pid, binp, seed, n, family=0, timeout=600):
-    """Generate n cases, evaluate the resumption, compare.  Returns a dict of counts (also stored in rep.cov)."""
+def gridalg_k(rep, pid, binp, seed, n, family=0, timeout=600, payload_is_broken=True):
+    """Generate n cases, evaluate the resumption, compare.  Returns a dict of counts (also stored in rep.cov).
+    family 0: any children; 1: display:none children but no absolute ones (C05); 2: absolute children but no display:none ones (C06)."""
     rc, out = vh(binp, ['gridalg', 'cases', seed, n, family], timeout=300)
     if rc != 0:
         rep.add_broken('correspondence', 'vh gridalg cases', out[-800:])
@@ -189,6 +191,7 @@ def gridalg_k(rep, pid, binp, seed, n, family=0, timeout=600):
     feats = {}
     distinct = set()
     reported = 0
+    npay_logged = 0
     nev = 0
     for c, a, b in zip(cases, impl, model):
         s_ok, e_ok, msg = compare(a, b)
@@ -199,17 +202,21 @@ def gridalg_k(rep, pid, binp, seed, n, family=0, timeout=600):
             feats[f] = feats.get(f, 0) + 1
         if len(events(a)) > 1:
             distinct.add(tuple(c))
-        if not e_ok and reported < 4:
+        if not e_ok and (payload_is_broken or not s_ok) and reported < 4:
             reported += 1
             rep.add_broken('correspondence', 'grid resumption K (%s)' % ('payload' if s_ok else 'event structure'),
                            {'what': msg, 'case': c, 'impl': a, 'model': b})
+        elif not e_ok and s_ok and not payload_is_broken and npay_logged < 2:
+            npay_logged += 1
+            log('[%s] grid resumption K: payload-only disagreement (reported by ./check C09): %s' % (pid, msg[:300]))
     rep.cov['evaluations'] = rep.cov.get('evaluations', 0) + len(cases)
     res = {'cases': len(cases), 'family': family, 'skipped_panics': int(done.group(2)), 'structure_agrees': nstruct, 'bit_exact': nexact,
+           'payload_only_disagreements': nstruct - nexact, 'payload_disagreement_fails_this_check': payload_is_broken,
            'events': nev, 'compute_size_cases': int(done.group(4)),
            'compute_size_cases_with_a_PerformLayout_query': int(done.group(5)),
            'features': feats, 'distinct_with_child_traffic': len(distinct)}
     rep.cov['gridalg_k'] = res
-    rep.cov['samples'].append({'gridalg_case': cases[0][:20], 'implementation_events': [describe_event(e) for e in events(impl[0])][:8]})
+    rep.cov.setdefault('samples', []).append({'gridalg_case': cases[0][:20], 'implementation_events': [describe_event(e) for e in events(impl[0])][:8]})
     return res
 
 
